@@ -216,6 +216,10 @@ class SubsequenceSearch:
         else:
             distance = dtw.distance
             lb_keogh = dtw.lb_keogh
+            if self.use_lb and self.dists_options.get('psi'):
+                self.use_lb = False
+                logger.warning('The setting use_lb is ignored when psi-relaxation is used '
+                               '(LB_Keogh is not a lower bound in that case).')
         if k is None or self.keep_all_distances:
             self.distances = np.zeros((len(self.s),))
             # if self.use_lb:
